@@ -138,6 +138,15 @@ pub fn head_edits() -> Vec<TextCase> {
         t.push('€');
         out.push(TextCase { s: t, label: "head-edit".into() });
     }
+    // very long texts: the valid text followed by 10^4 / 10^6 symbols, a megabyte of symbols, a valid
+    // text repeated 3000 times, 300 KB of padding
+    out.push(TextCase { s: format!("{base}{}", "A".repeat(10_000)), label: "long-text".into() });
+    out.push(TextCase { s: format!("{base}{}", "-".repeat(1_000_000)), label: "long-text".into() });
+    out.push(TextCase { s: "A".repeat(1_048_577), label: "long-text".into() });
+    out.push(TextCase { s: base.repeat(3000), label: "long-text".into() });
+    out.push(TextCase { s: format!("{base}{}", "=".repeat(300_000)), label: "long-text".into() });
+    out.push(TextCase { s: format!("enr:{}", "_".repeat(400)), label: "long-text".into() });
+    out.push(TextCase { s: format!("enr:{}", "_".repeat(401)), label: "long-text".into() });
     for s in ["é", "€", "𝄞", "en€", "enr€", "enré", "e𝄞", "€€", "enr:€", "enr:é", "abé", "ab€x", "a𝄞"] {
         out.push(TextCase { s: s.to_string(), label: "head-edit".into() });
     }
